@@ -9,6 +9,7 @@ import (
 	"github.com/vapourismo/knx-go/knx"
 	"github.com/vapourismo/knx-go/knx/knxnet"
 	"github.com/vapourismo/knx-go/verifmc/mc"
+	"github.com/vapourismo/knx-go/verifmc/vnet"
 	"verifh/harness/fakesock"
 	"verifh/harness/h"
 )
@@ -196,6 +197,14 @@ func c04Oracle(tcp bool) func(tr *mc.Trace) []h.Violation {
 			case fakesock.Sent:
 				if r, ok := x.Svc.(*knxnet.TunnelRes); ok {
 					gotAcks = append(gotAcks, ack{r.Channel, r.SeqNumber, uint8(r.Status)})
+				}
+			case Wrote: // full-stack variant: what left the (virtual) network socket
+				b, _ := hex.DecodeString(x.Hex)
+				var v knxnet.Service
+				if _, err := knxnet.Unpack(b, &v); err == nil {
+					if r, ok := v.(*knxnet.TunnelRes); ok {
+						gotAcks = append(gotAcks, ack{r.Channel, r.SeqNumber, uint8(r.Status)})
+					}
 				}
 			case Rx:
 				gotRx[x.ID]++
@@ -399,4 +408,84 @@ func c04FullStackOracle(tr *mc.Trace) []h.Violation {
 
 func init() {
 	register("both", &h.Scenario{Name: "C04-fullstack-acks-share-the-socket-with-a-pending-send", Prop: "C04", P: 2, F: 0, D: 4, Run: c03FullStack(), Check: c04FullStackOracle})
+}
+
+// c04WireStream: the stream alphabet of c04Run, as the octets a gateway sends, through the real
+// socket layer (virtual network): datagrams on UDP; on TCP one byte stream that the network cuts at a
+// chosen position of every frame (inside the header, behind it, inside the body, before the last
+// octet) or delivers two frames glued together. The receiver's bookkeeping must not depend on how
+// the requests reach it.
+func c04WireStream(L int, tcp bool) func() {
+	return func() {
+		w := vnet.Reset()
+		var ep *vnet.Endpoint
+		w.OnCreate = func(e *vnet.Endpoint) {
+			ep = e
+			e.OnWrite = func(wr vnet.WriteRec) {
+				mc.Log(Wrote{hex.EncodeToString(wr.Data)})
+				var v knxnet.Service
+				if _, err := knxnet.Unpack(wr.Data, &v); err != nil {
+					return
+				}
+				if _, ok := v.(*knxnet.ConnReq); ok {
+					e.Inject(pack(&knxnet.ConnRes{Channel: c04Channel, Status: 0, Control: knxnet.HostInfo{Protocol: knxnet.UDP4}}), nil)
+				}
+			}
+		}
+		cfg := TCfg(100, 350, 100000000)
+		cfg.UseTCP = tcp
+		t, err := knx.NewTunnel("192.0.2.99:3671", knxnet.TunnelLayerData, cfg)
+		if err != nil {
+			mc.Log(Note("connect failed: " + err.Error()))
+			return
+		}
+		mc.GoEnv("reader", func() {
+			for {
+				m, ok := t.Inbound().Recv2()
+				if !ok {
+					return
+				}
+				mc.Log(Rx{ID: MsgID(m), From: "tunnel"})
+			}
+		})
+		cut := 0
+		if tcp {
+			cut = []int{0, 3, 6, 11, -1, -2}[mc.Choose(6, mc.Free)]
+		}
+		model := &refReceiver{ch: c04Channel, tcp: tcp}
+		var glued []byte
+		for id := 0; id < L; id++ {
+			ch, seq := c04Symbol(mc.Choose(7, mc.Free), model.exp)
+			mc.Log(Inj{ch, seq, id})
+			model.step(ch, seq)
+			fr := pack(&knxnet.TunnelReq{Channel: ch, SeqNumber: seq, Payload: Msg(id)})
+			switch {
+			case cut == -2: // coalesced: everything in one segment at the end
+				glued = append(glued, fr...)
+				continue
+			case cut == -1:
+				ep.Inject(fr[:len(fr)-1], nil)
+				mc.Sleep(1 * ms)
+				ep.Inject(fr[len(fr)-1:], nil)
+			case cut > 0:
+				ep.Inject(fr[:cut], nil)
+				mc.Sleep(1 * ms)
+				ep.Inject(fr[cut:], nil)
+			default:
+				ep.Inject(fr, nil)
+			}
+			mc.Sleep(5 * ms)
+		}
+		if glued != nil {
+			ep.Inject(glued, nil)
+		}
+		mc.Sleep(20 * ms)
+		t.Close()
+		mc.Sleep(1 * ms)
+	}
+}
+
+func init() {
+	register("both", &h.Scenario{Name: "C04-fullstack-udp-stream3", Prop: "C04", P: 0, F: 0, D: -1, Run: c04WireStream(3, false), Check: c04Oracle(false)})
+	register("both", &h.Scenario{Name: "C04-fullstack-tcp-stream3-cut-and-glued", Prop: "C04", P: 0, F: 0, D: -1, Run: c04WireStream(3, true), Check: c04Oracle(true)})
 }
